@@ -902,6 +902,95 @@ Proof.
   - unfold unverified_match in Hg. rewrite forallb_forall in Hg. exact Hg.
 Qed.
 
+(* ------------------------------------ served features are contained *)
+Lemma subsetz_In : forall a b x, subsetz a b = true -> In x a -> In x b.
+Proof.
+  intros a b x H Hin. unfold subsetz in H. rewrite forallb_forall in H.
+  apply memz_In. apply H. exact Hin.
+Qed.
+
+Lemma fb_step_keeps : forall rb fs acc x, In x acc -> In x (fb_step rb fs acc).
+Proof.
+  intros rb fs acc x H. unfold fb_step.
+  destruct (nonempty fs && subsetz fs acc); [exact H|].
+  destruct (rb_avail rb); [apply in_or_app; left|]; exact H.
+Qed.
+
+Lemma fb_step_adds : forall rb fs acc x,
+    rb_avail rb = true -> In x fs -> In x (fb_step rb fs acc).
+Proof.
+  intros rb fs acc x Hav H. unfold fb_step.
+  destruct (nonempty fs && subsetz fs acc) eqn:E.
+  - apply andb_true_iff in E. destruct E as [_ E]. eapply subsetz_In; eauto.
+  - rewrite Hav. apply in_or_app. right; exact H.
+Qed.
+
+Lemma ffb_keeps : forall w f acc x, In x acc -> In x (ffb w f acc).
+Proof.
+  intros w f; induction f as [|rb rest IH|rb t rest IH] using forest_ind;
+    intros acc x H.
+  - exact H.
+  - rewrite ffb_leaf. apply IH. apply fb_step_keeps. exact H.
+  - rewrite ffb_node. apply IH. apply fb_step_keeps. exact H.
+Qed.
+
+Lemma verify_avail : forall w rb,
+    rb_class rb <> CInternal -> verify w rb = true -> rb_avail rb = true.
+Proof.
+  intros w rb Hc. unfold verify, rb_avail.
+  destruct (rb_class rb); try congruence; destruct (rb_tgt rb);
+    try reflexivity; discriminate.
+Qed.
+
+Lemma fget_listed : forall w f fm i, finv w fm i f -> forall pass feat s acc,
+    fget w f pass feat = Some s -> In feat (ffb w f acc).
+Proof.
+  intros w f; induction f as [|rb rest IH|rb t rest IH] using forest_ind;
+    intros fm i Hinv pass feat s acc.
+  - cbn. discriminate.
+  - destruct Hinv as [Hok [Hc Hrest]]. rewrite fget_leaf, ffb_leaf.
+    destruct (pass_ok pass rb && memz feat (leaf_feats rb) && verify w rb
+              && is_internal rb) eqn:Econd.
+    + intros _. apply ffb_keeps.
+      apply andb_true_iff in Econd. destruct Econd as [Econd Hint].
+      apply andb_true_iff in Econd. destruct Econd as [Econd _].
+      apply andb_true_iff in Econd. destruct Econd as [_ Hmem].
+      apply memz_In in Hmem. apply fb_step_adds; [|exact Hmem].
+      unfold rb_avail, is_internal in *. unfold leaf_feats in Hmem.
+      destruct (rb_class rb); try discriminate.
+      destruct (rb_feats rb) as [fs|]; [|destruct Hmem].
+      destruct fs; [destruct Hmem | reflexivity].
+    + intros H. eapply IH; eauto.
+  - destruct Hinv as [Hok [Hc [Hi Hrest]]]. rewrite fget_node, ffb_node.
+    destruct (pass_ok pass rb && memz feat (node_feats w rb t) && verify w rb)
+             eqn:Econd.
+    + intros _. apply ffb_keeps.
+      apply andb_true_iff in Econd. destruct Econd as [Econd Hv].
+      apply andb_true_iff in Econd. destruct Econd as [_ Hmem].
+      apply memz_In in Hmem. apply fb_step_adds; [|exact Hmem].
+      eapply verify_avail; [eapply rb_child_some_class; eauto | exact Hv].
+    + intros H. eapply IH; eauto.
+Qed.
+
+(* ds[feat] returns data only for features that `feat in ds` reports *)
+Lemma served_is_contained : forall w fuel fm i ign t feat s,
+    build w fuel fm i ign = Some t ->
+    tget w t feat = Some s -> tcontains w t feat = true.
+Proof.
+  intros w fuel fm i ign t feat s Hb.
+  pose proof (build_inv _ _ _ _ _ _ Hb) as Hi.
+  destruct t as [fm' j pr kids]. destruct Hi as [_ Hk].
+  rewrite tget_eq. unfold tcontains. cbn [tree_file].
+  destruct (memz feat (innate_of w j)) eqn:Ei; [reflexivity|].
+  cbn [orb]. rewrite tfb_eq. intros H.
+  apply memz_In. apply sortdedup_In.
+  destruct (fget w kids (Some TInternal) feat) eqn:E1;
+    [eapply fget_listed; eauto|].
+  destruct (fget w kids (Some TFile) feat) eqn:E2;
+    [eapply fget_listed; eauto|].
+  eapply fget_listed; eauto.
+Qed.
+
 Lemma ListedBy_inv : forall w OK fm i pr kids feat,
     ListedBy w OK (Tree fm i pr kids) feat ->
     (exists rb, In (rb, None) (kids_list kids) /\ rb_class rb = CInternal)
@@ -1005,3 +1094,67 @@ Example ex_identifiers :
             /\ tget w_ids t 3 = None /\ tget w_ids t 5 = None
             /\ unverified_match w_ids t = true.
 Proof. eexists. repeat split; vm_compute; reflexivity. Qed.
+
+(* --------------------------------------- ignored keys are never followed *)
+Lemma build_kids_edges : forall (P : rbasin -> Prop)
+                                (rec : fmt -> nat -> list Z -> option tree)
+                                rbs f,
+    (forall rb, In rb rbs -> P rb) ->
+    (forall rb fm j t, In rb rbs -> rec fm j (rb_ign rb) = Some t ->
+                       Forall P (tree_edges t)) ->
+    build_kids rec rbs = Some f -> Forall P (forest_edges f).
+Proof.
+  intros P rec rbs; induction rbs as [|rb rest IH]; intros f Hp Hrec;
+    cbn [build_kids].
+  - intros H; inversion H; subst. constructor.
+  - destruct (build_kids rec rest) as [fr|] eqn:E; [|discriminate].
+    assert (Hrest : Forall P (forest_edges fr)).
+    { apply IH; auto.
+      - intros rb' Hin. apply Hp. right; exact Hin.
+      - intros rb' fm j t Hin. apply Hrec. right; exact Hin. }
+    destruct (rb_child rb) as [[fm' j]|].
+    + destruct (rec fm' j (rb_ign rb)) as [t|] eqn:Er; [|discriminate].
+      intros H; inversion H; subst. cbn [forest_edges].
+      constructor; [apply Hp; left; reflexivity|].
+      apply Forall_app. split; [|exact Hrest].
+      eapply Hrec; [left; reflexivity | exact Er].
+    + intros H; inversion H; subst. cbn [forest_edges].
+      constructor; [apply Hp; left; reflexivity | exact Hrest].
+Qed.
+
+(* No basin whose key is in the ignore list is instantiated, at any depth;
+   since every dataset passes its own keys down, no key is followed twice
+   on a path: this is the cycle cut. *)
+Lemma ignored_never_followed : forall w fuel fm i ign t,
+    build w fuel fm i ign = Some t ->
+    Forall (fun rb => memz (b_key (rb_b rb)) ign = false
+                      /\ (forall k, In k ign -> In k (rb_ign rb))
+                      /\ In (b_key (rb_b rb)) (rb_ign rb))
+           (tree_edges t).
+Proof.
+  intros w fuel; induction fuel as [|k IH]; intros fm i ign t;
+    [cbn [build]; discriminate | rewrite build_S].
+  destruct (retrieve w fm i ign) as [rbs pr] eqn:E.
+  destruct (build_kids (build w k) rbs) as [kids|] eqn:Ek; [|discriminate].
+  intros H; inversion H; subst. cbn [tree_edges].
+  assert (Hrb : forall rb, In rb rbs ->
+                memz (b_key (rb_b rb)) ign = false
+                /\ (forall k0, In k0 ign -> In k0 (rb_ign rb))
+                /\ In (b_key (rb_b rb)) (rb_ign rb)).
+  { intros rb Hin.
+    assert (Hin' : In rb (fst (retrieve w fm i ign))) by (rewrite E; exact Hin).
+    destruct (retrieve_spec _ _ _ _ _ Hin')
+      as [f [b [Hn [Hb [[t0 ->] [Hk _]]]]]].
+    cbn [rb_b rb_ign mk_rb]. split; [exact Hk|]. split.
+    - intros k0 Hk0. apply in_or_app. right; exact Hk0.
+    - apply in_or_app. left. apply in_map. apply sort_basins_In. exact Hb. }
+  eapply build_kids_edges; [exact Hrb | | exact Ek].
+  intros rb fm' j t' Hin Hb.
+  destruct (Hrb rb Hin) as [_ [Hsub _]].
+  eapply Forall_impl; [|eapply IH; exact Hb].
+  intros rb' [H1 [H2 H3]]. split; [|split].
+  - apply memz_false. intros Hc. apply memz_false in H1. apply H1.
+    apply Hsub. exact Hc.
+  - intros k0 Hk0. apply H2. apply Hsub. exact Hk0.
+  - exact H3.
+Qed.
